@@ -235,17 +235,24 @@ CLAIMED["C10"] = dict(
 CLAIMED["C06"] = dict(
     category="other",
     technique="abstract interpretation in a parity domain {even, odd, mixed, unknown} over symbolically folded "
-              "terms (model getters inlined down to the stored parameters)",
-    text="For every contribution that does not read a mixing matrix -- the tan(beta)-resummation factors "
+              "terms; for the exact contributions: entry-wise covariance identities of the mass-matrix functions and "
+              "invariance of the folded formulas (exact complex rational functions of the mixing-matrix entries) under the "
+              "induced substitution and under the row phases left open by the decomposition contracts",
+    text="(P1) For every contribution that does not read a mixing matrix -- the tan(beta)-resummation factors "
          "Delta_mu, Delta_tau, Delta_b, the leading-log one- and two-loop approximations, the logarithm scale, "
          "delta_g/delta_yuk/delta_tan_beta, tan(alpha) (27 functions, 32 overloads) -- the folded formula is "
          "even under the joint sign flip of mu, M1, M2, M3, A_f/T_f: products multiply parities, sums need equal "
          "parities, |x| and x^2 are even, comparisons/min/max/log of a sign-changing quantity are definite "
-         "violations. This holds for all parameter values and all sign combinations at once.",
-    note=TRUST + "Masses (eigenvalues) are taken as invariant. NOT decided (listed in the evidence): the exact "
-         "one-loop, photonic and 2L(a) contributions, whose invariance rests on how the eigen-solver absorbs "
-         "the signs into the mixing matrices.",
-    ref="3 C06")
+         "violations. (P2-P4) For the exact one-loop and the photonic two-loop contributions: the neutralino, chargino, "
+         "smuon and sneutrino mass matrices transform covariantly under the flip (M -> (iS) M (iS) etc., polynomial "
+         "identities), which maps every decomposition allowed by the contracts to one with the same masses and "
+         "ZN -> ZN iS, UM/UP -> UM/UP is, ZM -> ZM t; the formulas are invariant under exactly this substitution, and "
+         "they do not depend on the row signs/phases the contracts leave arbitrary. This holds for all parameter values and "
+         "all sign combinations at once.",
+    note=TRUST + "Masses (eigenvalues) are invariant by the covariance argument; the decomposition contracts are those "
+         "checked structurally in C12. NOT decided (listed in the evidence): the 2L(a) contributions (stop/sbottom/stau and "
+         "Higgs mixing), and points with exactly degenerate masses where the decomposition leaves a rotation open.",
+    ref="3 C06, 10.6")
 
 CLAIMED["C07"] = dict(
     category="other",
